@@ -1,4 +1,6 @@
 """C13 - documented spelling variants of the same program assemble to identical bytes (structural clauses)."""
+import ast
+
 from ..core import Report, Finding, AnalysisError
 from ..facts import Facts
 from .. import encprops, lexrules
@@ -21,10 +23,54 @@ def check_base_offset(rep, facts):
               lambda: Finding('R13.2.base-offset', 'BASE_OFFSET_INSTRUCTIONS', 'extra', '{} are given the imm(reg) spelling although they have no base register + offset form'.format(extra), line=node.lineno), nontrivial=False)
 
 
+def calls_through_values(fn, facts):
+    """Calls in `fn` whose callee is a value (a local / loop variable, a table entry, the result of a call) rather than a
+    module-level function, class or builtin: the token-provenance engine does not see through them."""
+    local = lexrules.assigned_names(fn.body) | {a.arg for a in fn.args.posonlyargs + fn.args.args + fn.args.kwonlyargs}
+    out = []
+    for n in ast.walk(fn):
+        if not isinstance(n, ast.Call):
+            continue
+        f = n.func
+        if isinstance(f, ast.Name) and f.id in local and f.id not in facts.funcs and f.id not in facts.classes:
+            out.append(n)
+        elif isinstance(f, (ast.Subscript, ast.Call)):
+            out.append(n)
+    return out
+
+
+def absorb(rep, scratch):
+    for rule, instance, ok in scratch.obligations:
+        if ok:
+            rep.ok(rule, instance, (rule, instance) in scratch._nontrivial)
+    for f in scratch.findings:
+        rep.fail(f)
+    for o in scratch.obligations:
+        if not o[2] and o not in rep.obligations:
+            rep.obligations.append(o)
+    rep._nontrivial |= scratch._nontrivial
+    for k, v in scratch.analysed.items():
+        rep.count(k, v)
+    for x in scratch.samples:
+        rep.sample(x)
+    for x in scratch.notes:
+        rep.note(x)
+
+
 def shared_engine_rules(rep, repo, facts):
     doc = repo.text['docs/instruction_reference.rst']
-    encprops.check_wiring(rep, facts, 'R13.2.wiring', False, doc)
-    encprops.check_wiring(rep, facts, 'R13.2.wiring', True, doc)
+    scratch = Report(rep.prop, rep.level, '')
+    encprops.check_wiring(scratch, facts, 'R13.2.wiring', False, doc)
+    encprops.check_wiring(scratch, facts, 'R13.2.wiring', True, doc)
+    if scratch.findings:
+        # a wiring finding is only a verdict about a parser the token-provenance engine has followed completely: a parse_item that
+        # hands over through values (dispatch table, parser callables) is outside it (the engine is shared; worked around here)
+        pi = facts.funcs.get('parse_item')
+        indirect = calls_through_values(pi, facts) if pi is not None else []
+        if indirect:
+            raise AnalysisError('parse_item dispatches through values (`{}`): the token-provenance rules R13.2.wiring do not follow '
+                                'it ({} would-be findings discarded)'.format(ast.unparse(indirect[0])[:60], len(scratch.findings)))
+    absorb(rep, scratch)
     # R13.6 decisions must not depend on how a register is spelled: predicates compare register *numbers*
     from ..comprel import CompRel
     rel = CompRel(facts)
